@@ -363,6 +363,11 @@ func (p *uPacketPacker) planInitialFlight(sealer sealer, maxSize protocol.ByteCo
 	if err != nil {
 		return fmt.Errorf("uquic: BuildFlight: %w", err)
 	}
+	// a builder may return more datagrams than it was offered budgets for: each of them is
+	// held against its own packet (plan and packet number length), not against the last budget
+	for i := len(budgets); i < len(payloads); i++ {
+		budgets = append(budgets, p.flightBudgetFor(i, sealer, maxSize, v))
+	}
 	if err := validateInitialFlight(payloads, budgets, len(cryptoData)); err != nil {
 		return err
 	}
@@ -383,21 +388,36 @@ func (p *uPacketPacker) flightBudgets(cryptoLen int, sealer sealer, maxSize prot
 	}
 	budgets := make([]InitialDatagramBudget, n)
 	for i := range budgets {
-		plan := p.uSpec.InitialPacketSpec.planFor(i)
-		size := maxSize
-		if plan.PacketSize > 0 {
-			size = protocol.ByteCount(plan.PacketSize)
-		}
-		budgets[i] = InitialDatagramBudget{Plan: plan, MaxFrameBytes: p.initialFrameBudget(size, sealer, v)}
+		budgets[i] = p.flightBudgetFor(i, sealer, maxSize, v)
 	}
 	return budgets
+}
+
+// flightBudgetFor describes Initial datagram i of the flight (the last plan repeats). [UQUIC]
+func (p *uPacketPacker) flightBudgetFor(i int, sealer sealer, maxSize protocol.ByteCount, v protocol.Version) InitialDatagramBudget {
+	plan := p.uSpec.InitialPacketSpec.planFor(i)
+	size := maxSize
+	if plan.PacketSize > 0 {
+		size = protocol.ByteCount(plan.PacketSize)
+	}
+	return InitialDatagramBudget{Plan: plan, MaxFrameBytes: p.initialFrameBudgetAt(i, size, sealer, v)}
 }
 
 // initialFrameBudget is how many frame payload bytes an Initial packet of exactly
 // packetSize bytes can carry: the size minus the long header — with its Length varint
 // sized the way appendInitialPacketPayload sizes it — and the AEAD tag. [UQUIC]
 func (p *uPacketPacker) initialFrameBudget(packetSize protocol.ByteCount, sealer sealer, v protocol.Version) int {
+	return p.initialFrameBudgetAt(0, packetSize, sealer, v)
+}
+
+// initialFrameBudgetAt is initialFrameBudget for the i-th Initial packet from now: the
+// spec may pin another packet number length for it. [UQUIC]
+func (p *uPacketPacker) initialFrameBudgetAt(i int, packetSize protocol.ByteCount, sealer sealer, v protocol.Version) int {
 	hdr := p.getLongHeader(protocol.EncryptionInitial, v)
+	if l := p.uSpec.InitialPacketSpec.InitPacketNumberLengths; len(l) > 0 {
+		idx := int(hdr.PacketNumber-p.uSpec.InitialPacketSpec.initialPN()) + i
+		hdr.PacketNumberLen = l[max(0, min(idx, len(l)-1))]
+	}
 	hdr.Length = packetSize
 	budget := packetSize - hdr.GetLength(v) - protocol.ByteCount(sealer.Overhead())
 	return int(max(budget, 0))
